@@ -1,16 +1,52 @@
 SPEC = {
     "id": "C08",
     "level": "exploration",
-    "level_text": "tbd",
-    "level_note": "tbd",
-    "technique": "runtime monitoring: differential oracle",
-    "rule": "tbd",
-    "assumptions": [],
+    "level_text": ("seeded exploration: generated EIA-608 command/character histories on both fields and all eight "
+                   "channels are decoded by the real caption decoder (vbi_decode -> src/caption.c) and every page "
+                   "fetched at every comparison point is compared cell by cell with an independent reference "
+                   "display-memory model; held means: no divergence on the histories executed, other than the "
+                   "named deviations recorded as known findings"),
+    "level_note": ("trusted base: the reference model harness/c08_model.h, written from the rule texts quoted verbatim "
+                   "in /repo/test/cc608-{roll-up,attributes,charsets}.xml (47 CFR 15.119 (d),(e),(f),(h),(i),(n); "
+                   "EIA-608-B 6.2, 6.4.2, Annex C.4/C.7/C.11/C.13/C.14/C.15) and, for Text Mode / CR in pop-on and "
+                   "paint-on / EDM-ENM in Text Mode, from the paragraph references and quotations in the comments of "
+                   "src/cc608_decoder.c (EIA-608-B 7.4, 7.7, B.7; 15.119 (f)(2)(i),(f)(3)(i)); the independent "
+                   "encoder harness/c08_enc.h; the model self-test (hand vectors + the three XML streams). "
+                   "Where those texts are silent the model does not compare (attribute marked unknown / channel "
+                   "poisoned), it never picks a reading."),
+    "technique": ("runtime monitoring: differential oracle (history + executable reference model, DESIGN.md section 2 "
+                  "styles 2 and 5) under ASan/UBSan; caption events logged by a registered VBI_EVENT_CAPTION handler"),
+    "rule": ("case = one generated history (12..900 byte pairs per field, quick; up to 2500 thorough) drawn from 8 "
+             "profiles (clean pop-on / roll-up / paint-on / text, wild = any command at any time, targeted: last "
+             "column, roll-up base rows 1-5, every pair of commands), one or both fields, control codes doubled / "
+             "single / mixed, optional null padding, channel switches within a field; comparison points after EOC, "
+             "spaces, PAC/CR/DER/EDM and style switches. Signature = (style, roll depth, cursor row, cursor column "
+             "bucket {1, 2-31, 32}, class of the last command, caption|text page) of a non-empty compared page; "
+             "trivial = history in which no non-empty page was compared"),
+    "assumptions": [
+        "reference model c08_model.h implements the quoted rule texts correctly (self-tested on hand vectors and on the repository's three cc608 XML streams)",
+        "rule texts quoted in /repo/test/cc608-*.xml and in src/cc608_decoder.c comments are faithful quotations of 47 CFR 15.119 / EIA-608-B",
+        "a named quirk explains a divergence only if the model with that set of quirks switched on matches the decoder cell by cell over the whole history",
+        "EIA-608-B 6.4.2 extended characters are an optional decoder feature: a decoder that ignores them conforms",
+        "codes addressed to a data channel that was not selected by a resume command, and XDS on field 2, are not generated",
+    ],
     "jobs": [
         {"name": "asan", "harness": "c08_cc608", "srcs": ["harness/c08_cc608.c"], "flavour": "asan",
-         "cases": {"quick": 4800, "thorough": 480000}, "budget": 20},
+         "cases": {"quick": 24000, "thorough": 3000000}, "budget": 20},
         {"name": "witness", "harness": "c08_cc608", "srcs": ["harness/c08_cc608.c"], "flavour": "asan",
-         "cases": {"quick": 20, "thorough": 20}, "mode": "witness", "budget": 20},
+         "cases": {"quick": 44, "thorough": 44}, "mode": "witness", "budget": 20},
     ],
-    "min_distinct": 50,
+    "min_distinct": 300,
+    "min_counters": {
+        "pages_compared": 100000,
+        "cells_compared": 50000000,
+        "checkpoints": 50000,
+        "caption_events": 50000,
+        "page_changes_observed": 20000,
+        "page_changes_announced_by_event": 20000,
+        "cases_agreeing_with_strict_model": 500,
+        "witness_sequences": 22,
+        "pop-on": 500, "roll-up": 500, "paint-on": 500, "text": 500, "wild": 1000,
+        "edge-last-column": 500, "edge-base-row": 500, "edge-command-pairs": 500,
+    },
 }
